@@ -20,7 +20,7 @@
                kids_order ps q : last elements of those paths of ps whose parent is q, in order of ps *)
 From Coq Require Import List NArith Arith Bool.
 From DesVerif Require Import Tree.Path Tree.PathLaws Tree.Model Tree.Forest Tree.Refine Tree.Stages
-  Tree.Script Tree.Indep Tree.Main.
+  Tree.Script Tree.Indep Tree.Lookup Tree.Main.
 Import ListNotations.
 Local Open Scope nat_scope.
 
@@ -124,6 +124,29 @@ Theorem C12_tree_add_panic_unreachable : forall l st p k, wf_ins l -> wf_path p 
   raw (built l) (from (join p)) st = Panic k -> k = P_DUP \/ k = P_ORPHAN.
 Proof. exact tree_add_panic_unreachable. Qed.
 Print Assumptions C12_tree_add_panic_unreachable.
+
+(* --- lookups agree with the declared tree ----------------------------- *)
+(* every module of the vector is `to_mref y` for a declaration y (C12_add_is_preorder);
+   its parent pointer is the module declared at its parent path (none for a
+   top-level node), child(n) is the module declared at path.n (none if there is
+   no such declaration), and its object path is the declared one *)
+Theorem C12_parent_lookup : forall l y, wf_ins l -> In y (accepted l) ->
+  mparent (to_mref y) = ord_of (accepted l) (removelast (fst y)).
+Proof. exact parent_lookup_thm. Qed.
+Print Assumptions C12_parent_lookup.
+
+Theorem C12_child_lookup : forall l y n, wf_ins l -> In y (accepted l) ->
+  ctx_child (built l) (to_mref y) n = ord_of (accepted l) (fst y ++ [n]).
+Proof. exact child_lookup_thm. Qed.
+Print Assumptions C12_child_lookup.
+
+Theorem C12_object_path : forall l y, wf_ins l -> In y (accepted l) ->
+  mpath (to_mref y) = from (join (fst y)) /\
+  as_str (mpath (to_mref y)) = join (fst y) /\
+  name (mpath (to_mref y)) = last (fst y) [] /\
+  len (mpath (to_mref y)) = length (fst y).
+Proof. exact object_path_thm. Qed.
+Print Assumptions C12_object_path.
 
 (* --- path_laws ---------------------------------------------------------- *)
 (* for every path p parsed from a dotted string of good names (the root, l = [],
